@@ -7,8 +7,8 @@ EXPLANATION = ("Chunk shapes are enumerated, field values are symbolic (integers
                "(prefix length, number of surplus reads) is symbolic and value-forked. Real EoWriter (sanitising) and real EoReader (chunked).")
 NONTRAIL = ("char", "short", "three", "int", "fixed_string", "fixed_encoded_string")
 TRAIL = ("string", "encoded_string")
-BOUNDS = {"quick": "3 chunks over a 4-shape basis with every read plan for the first two (incl. skipping a middle chunk untouched); 2 chunks: first chunk any shape of <= 2 fields over 8 kinds (unbounded strings last) with every read plan (prefix 0..n, surplus 0..2), second chunk one of 5 probe shapes; strings of 2 code points",
-          "thorough": "quick plus string lengths 0..3 and all 3-chunk combinations over a 9-shape basis with every read plan"}
+BOUNDS = {"quick": "3 chunks over a 4-shape basis with every read plan for the first two (incl. skipping a middle chunk untouched); 2 chunks: first chunk any shape of <= 2 fields over 8 kinds (unbounded strings last) with every read plan (prefix 0..n, surplus 0..2), second chunk one of 5 probe shapes; strings of 2 code points; later chunks read through a slice; an unsanitised header ahead of the chunks; long chunks (strings of 66 and 130 symbolic characters)",
+          "thorough": "quick plus string lengths 0..3 and all 3-chunk combinations over a 9-shape basis with every read plan; long chunks with strings of 33..260 characters"}
 OUTSIDE = "more chunks / more fields per chunk / longer strings; sanitisation off (then 0xFF may appear in strings, outside the property's premise)"
 ASSUMPTIONS = ["'~' excluded from encoded strings (the format cannot carry it: C08)"]
 SURPLUS = ("char", "string")
